@@ -306,6 +306,7 @@ class CompoundWriter(object):
             self._buffersize = buffersize
             self._buffer = BytesIO()
             self.blocks = []
+            self._closed = False
 
         def tell(self):
             return sum(b[2] for b in self.blocks) + self._buffer.tell()
@@ -325,6 +326,11 @@ class CompoundWriter(object):
                 bio.write(inbytes)
 
         def close(self):
+            # The compound writer closes every sub-stream when it reads them
+            # back; the stream may already have been closed by its user
+            if self._closed:
+                return
+            self._closed = True
             bio = self._buffer
             length = bio.tell()
             if length:
